@@ -74,6 +74,53 @@ def gen_case(rng, malformed=False):
                 constraints=cons, placements=pl, kind=kind, style=style)
 
 
+def gen_tight(rng):
+    """Completeness stream: no alignment, reservations only at the two ends of each chip's range (global
+    prefix shared by all chips, per-chip prefixes/suffixes differing between chips), vertices filling the
+    free middle exactly or almost."""
+    w, h = rng.choice([(2, 1), (2, 2), (3, 1), (3, 2)])
+    chips = [(x, y) for x in range(w) for y in range(h)]
+    nres = rng.randint(1, 2)
+    caps = [[r, rng.choice([8, 12, 16, 20])] for r in range(nres)]
+    exc = [[list(c), [[r, rng.choice([6, 10, 24])] for r in range(nres)]] for c in chips if rng.random() < 0.3]
+    capf = lambda c, r: dict(dict((tuple(k), v) for k, v in exc).get(c, caps))[r]
+    cons, vres, pl = [], [], []
+    vid = 0
+    gpre = {r: rng.choice([0, 0, 1, 2]) for r in range(nres)}
+    for r in range(nres):
+        if gpre[r]:
+            cons.append(["reserve", r, 0, gpre[r], None])
+    free = {}
+    for c in chips:
+        for r in range(nres):
+            cap = capf(c, r)
+            a = gpre[r]
+            if rng.random() < 0.5:
+                a2 = min(cap, a + rng.randint(1, 3))
+                cons.append(["reserve", r, rng.randint(0, a), a2, list(c)])
+                a = a2
+            b = cap
+            if rng.random() < 0.6:
+                b = max(a, cap - rng.randint(1, 4))
+                cons.append(["reserve", r, b, cap, list(c)])
+            free[c, r] = max(0, b - max(a, 0)) if a <= cap else 0
+    rng.shuffle(cons)
+    for c in chips:
+        left = {r: free[c, r] for r in range(nres)}
+        for _ in range(rng.randint(0, 3)):
+            rq = []
+            for r in range(nres):
+                q = rng.randint(0, left[r]) if rng.random() < 0.7 else left[r]
+                left[r] -= q
+                rq.append([r, q])
+            vid += 1
+            vres.append([vid, rq])
+            pl.append([vid, list(c)])
+    rng.shuffle(pl)
+    return dict(machine=dict(w=w, h=h, res=caps, exc=exc, dead=[]), vres=vres, constraints=cons,
+                placements=pl, kind="valid", style="tight-ends")
+
+
 # ------------------------------------------------------------------ Coq literals
 def coq_case(c):
     m = c["machine"]
@@ -208,7 +255,8 @@ def run(chk, args):
         cases += [b["replay"]["case"] for b in json.load(open(args.replay)).get("no_longer_checks", []) if "case" in b.get("replay", {})]
     else:
         n = 600 if chk.tier == "quick" else 20000
-        cases = [gen_case(chk.rng, malformed=(i % 8 == 7)) for i in range(n)]
+        cases = [gen_tight(chk.rng) if i % 4 == 1 else gen_case(chk.rng, malformed=(i % 8 == 7))
+                 for i in range(n)]
     corpus = lib.os.path.join(lib.VERIF, "corpus", "C05.json")
     if lib.os.path.exists(corpus):
         cases = json.load(open(corpus)) + cases
